@@ -500,6 +500,9 @@ def job_clock_resync(num_pols, op):
         for st in ant.streams:
             st.add_constant_signal(P['f_start'], P['drift'], P['level'], P['phase'])
         ant.get_samples(2)
+        # (a member of an array carries its sample delay as an attribute; the delay is applied by the array to the shared
+        # background only -- the antenna's own streams are set to the requested instant itself)
+        ant.delay = 3
         # arbitrary, mutually different clocks; flags as left by an interrupted request
         ant.t_start, ant.start_obs = ta, True
         for st, t_ in zip(ant.streams, (tx, ty)):
@@ -539,6 +542,7 @@ def replay_resync(p):
     for st in ant.streams:
         st.add_signal(lambda ts: np.asarray(ts) * 7.0)          # sample value = 7 * its own time
     ant.get_samples(2)
+    ant.delay = 3
     # (instants that are not whole numbers of sample periods)
     ant.t_start, ant.start_obs = 3.25007, True
     for st, t_ in zip(ant.streams, (9.0, 11.5)):
